@@ -40,6 +40,10 @@ class BodyError(Exception):
     pass
 
 
+class RmvError(OSError):
+    """the inner cacher's rmv failing (what DiskCacher.rmv does when unlink raises: PermissionError, vanished file)"""
+
+
 class BaseErr(BaseException):
     """a getter failure that is not an `Exception` (like KeyboardInterrupt / SystemExit)"""
 
@@ -121,6 +125,7 @@ def run_sched(case):
     last_value, getter_ok, getter_runs, removed = {}, {}, {}, {}
     outcomes = [[] for _ in range(n)]
     received = [[] for _ in range(n)]
+    rmv_fail = [False] * n                # the inner rmv the thread is about to reach raises
 
     def keyinfo(writes):
         tid = s.me()
@@ -196,6 +201,13 @@ def run_sched(case):
             s.yp()
             start_write(ki, "removes")
             try:
+                tid = s.me()
+                if tid is not None and rmv_fail[tid]:
+                    rmv_fail[tid] = False
+                    st["rmv_failed"] = st.get("rmv_failed", 0) + 1
+                    s.log(("crmvFail", ki))
+                    s.yp()
+                    raise RmvError(13, "Permission denied", "%s.gz" % key)
                 present = key in inner
                 inner.rmv(key)
                 if present:
@@ -319,12 +331,15 @@ def run_sched(case):
                 s.yp()
                 s.log(("begin",))
                 cur[tid] = ki
+                rmv_fail[tid] = len(ins) > 2 and ins[2] == "fail"
                 try:
                     cc.rmv(keys[ki])
                 except CobaException:
                     if ki in stacks[tid]:
                         outcomes[tid].append("rmv-while-reading:CobaException")
                     raise
+                finally:
+                    rmv_fail[tid] = False
                 pos += 1
             else:
                 raise RuntimeError("bad instr %r" % (ins,))
@@ -345,6 +360,8 @@ def run_sched(case):
                 outcomes[tid].append("GetterError")
             except BodyError:
                 outcomes[tid].append("BodyError")
+            except RmvError:
+                outcomes[tid].append("RmvError")
             except BaseErr:
                 outcomes[tid].append("BaseErr")
             except CobaException as e:
@@ -388,7 +405,7 @@ def run_sched(case):
         "arr_keys": [list.__getitem__(arr, i) for i in idxs], "arr_nonzero": nonzero,
         "locks": sorted([[t, k, v] for (t, k), v in locks.items()], key=str),
         "cache": cache, "outcomes": outcomes, "received": received, "viol": viol,
-        "base_raised": st["base_raised"], "spins": st["spins"], "unlocked_writes": arr.unlocked_writes,
+        "base_raised": st["base_raised"], "rmv_failed": st.get("rmv_failed", 0), "spins": st["spins"], "unlocked_writes": arr.unlocked_writes,
         "getter_ok": getter_ok, "removed": removed, "idx": idxs,
         "errors": [None if e is None else type(e).__name__ for e in s.errors],
     }
